@@ -914,15 +914,20 @@ def realize_few_epochs(case):
             ll_file = np.asarray(joker.marginal_ln_likelihood(data, rows), dtype=float)
         out["finite"] = bool(np.all(np.isfinite(ll_mem)) and np.all(np.isfinite(ll_file)))
         out["n_not_finite"] = int(np.sum(~np.isfinite(ll_mem)) + np.sum(~np.isfinite(ll_file)))
-        dev = 0.0
+        dev, cond = 0.0, 0.0
         for k in range(R):
             c2 = dict(c)
             c2["t"] = [x - shift for x in c["t"]]
-            c2.update(P=Ps[k], e=es[k], omega=oms[k], M0=(M0s[k] - 2 * np.pi * shift / Ps[k]))
+            c2.update(P=Ps[k], e=es[k], omega=oms[k], M0=M0s[k])
             want = go.ln_marginal_exact(c2) - N * math.log(ratio)
             if np.isfinite(ll_mem[k]) and np.isfinite(ll_file[k]):
-                dev = max(dev, max(abs(ll_mem[k] - want), abs(ll_file[k] - want)) / max(1.0, abs(want)))
+                d = max(abs(ll_mem[k] - want), abs(ll_file[k] - want)) / max(1.0, abs(want))
+                if d > dev:
+                    dev, cond = d, float(np.linalg.cond(go.B(c2)))
+            else:
+                out["cond_B_nonfinite"] = max(out.get("cond_B_nonfinite", 0.0), float(np.linalg.cond(go.B(c2))))
         out["dev_ll"] = float(dev)
+        out["cond_B"] = float(cond)
         out["ll"], out["ll_file"] = [float(x) for x in ll_mem[:4]], [float(x) for x in ll_file[:4]]
         out["ok"] = True
     except Exception as ex:
@@ -972,7 +977,7 @@ def realize_illcond(case):
         for k in range(R):
             c2 = dict(c)
             c2["t"] = [x - shift for x in c["t"]]
-            c2.update(P=Ps[k], e=es[k], omega=oms[k], M0=(M0s[k] - 2 * np.pi * shift / Ps[k]))
+            c2.update(P=Ps[k], e=es[k], omega=oms[k], M0=M0s[k])
             want = go.ln_marginal_exact(c2)
             cond = max(cond, float(np.linalg.cond(go.B(c2))))
             d = abs(ll[k] - want) if np.isfinite(ll[k]) else 1e300
@@ -986,7 +991,7 @@ def realize_illcond(case):
 
 def offlattice_illcond(ctx, family, n):
     """the ill-conditioned corner is an OPEN FINDING (known_findings.json KF_IllConditionedB): a deviation is reported as that finding
-    only when the condition number of B is beyond 1e8 - a deviation on a well-conditioned problem is a violation like any other"""
+    only when the condition number of B is beyond 1e10 - a deviation on a well-conditioned problem is a violation like any other"""
     from . import core
     res = core.pmap(realize_illcond, [{"id": "cond-%s-%d" % (family, i), "seed": ctx.seed * 100000 + 17 * i + 9} for i in range(n)], chunksize=1)
     hits, worst_abs, worst_cond = 0, 0.0, 0.0
@@ -997,7 +1002,7 @@ def offlattice_illcond(ctx, family, n):
             continue
         worst_cond = max(worst_cond, r["cond_B"])
         if not (r["dev_ll"] <= OFF_TOL):
-            kf = "KF_IllConditionedB" if r["cond_B"] > 1e8 else None
+            kf = "KF_IllConditionedB" if r["cond_B"] > 1e10 else None
             if ctx.fail("%s.OffLatticeValueIsLnNormalOfTheSpecifiedGaussian" % family, r, kf=kf,
                         detail={"dev_ll": r["dev_ll"], "abs_dev_ll": r["abs_dev_ll"], "cond_B": r["cond_B"]}) == "known":
                 hits += 1
@@ -1017,9 +1022,14 @@ def offlattice_few_epochs(ctx, family, n):
         if not r["ok"]:
             ctx.fail("%s.OffLatticeProblemRaises" % family, r)
         elif not r["finite"]:
-            ctx.fail("%s.FiniteForFiniteValidInput" % family, r, detail={"ll": r["ll"], "ll_file": r["ll_file"]})
+            # (a non-finite value on a problem beyond the condition number of the open finding belongs to that finding)
+            ctx.fail("%s.FiniteForFiniteValidInput" % family, r, kf="KF_IllConditionedB" if r.get("cond_B_nonfinite", 0.0) > 1e10 else None,
+                     detail={"ll": r["ll"], "ll_file": r["ll_file"], "cond_B": r.get("cond_B_nonfinite")})
         elif not (r["dev_ll"] <= OFF_TOL):
-            ctx.fail("%s.OffLatticeMarginalIsTheClosedForm" % family, r, detail={"dev_ll": r["dev_ll"]})
+            # few epochs close together far from the reference epoch make B ill-conditioned too (powers of nearly equal dt): beyond a
+            # condition number of 1e10 that is the open finding KF_IllConditionedB, below it a violation
+            ctx.fail("%s.OffLatticeMarginalIsTheClosedForm" % family, r, kf="KF_IllConditionedB" if r.get("cond_B", 0.0) > 1e10 else None,
+                     detail={"dev_ll": r["dev_ll"], "cond_B": r.get("cond_B")})
         else:
             worst = max(worst, r["dev_ll"])
         ctx.nontrivial(("few", r["seed"]))
